@@ -99,10 +99,16 @@ pub struct IntoIter<T> {
 impl<T: Copy> Iterator for IntoIter<T> {
     type Item = T;
     fn next(&mut self) -> Option<T> {
-        if self.pos < self.len {
-            let x = self.buf[self.pos];
-            self.pos += 1;
-            Some(x)
+        // the position advances unconditionally so that it stays a concrete number for CBMC
+        // (a position that depends on the symbolic length makes every later call re-explore
+        // the earlier elements)
+        let i = self.pos;
+        if i >= VCAP {
+            return None;
+        }
+        self.pos += 1;
+        if i < self.len {
+            Some(self.buf[i])
         } else {
             None
         }
